@@ -168,3 +168,39 @@ Definition BK h txs obs rw ri post qh vw : blk :=
 Definition CS i ik ht au ad ct ac aa hs pre bs : case :=
   {| c_ids := i; c_idkeys := ik; c_H := ht; c_au64 := au; c_addr := ad; c_contracts := ct; c_accts := ac; c_addrs := aa;
      c_heights := hs; c_pre := pre; c_blocks := bs |}.
+
+(* ---- literal key bytes: a case family in which H is the Gallina SHA-256 (C20/Sha256.v) on the REAL id bytes ----
+   A key is the number 0x01 followed by its bytes (big-endian), so length and leading zeros are kept. The SHA-256
+   chains of the ids are computed here, compared with the chains the node's common.Sha256 produced (l_chain), and
+   used as the model's H: the storage-key derivations are confirmed end to end, including the aliasing scenarios
+   where the second id IS the hash of the first. *)
+From V.Base Require Import Hex.
+From V.C20 Require Import Sha256.
+
+Definition enc (b : bytes) : N := fold_left (fun acc x => (acc * 256 + x)%N) b 1%N.
+Fixpoint dec_aux (fuel : nat) (n : N) (acc : bytes) : bytes :=
+  match fuel with
+  | O => acc
+  | S f => if (n <=? 1)%N then acc else dec_aux f (n / 256)%N ((n mod 256)%N :: acc)
+  end.
+Definition dec (n : N) : bytes := dec_aux (N.to_nat (N.size n)) n [].
+Definition Hs (x : N) : N := enc (sha256 (dec x)).
+
+Definition chain7 (x0 : N) : list (N * N) :=
+  let x1 := Hs x0 in let x2 := Hs x1 in let x3 := Hs x2 in let x4 := Hs x3 in let x5 := Hs x4 in let x6 := Hs x5 in
+  let x7 := Hs x6 in [(x0, x1); (x1, x2); (x2, x3); (x3, x4); (x4, x5); (x5, x6); (x6, x7)].
+
+Record lcase := { l_case : case; l_chain : list (N * N) }.
+
+Definition check_lit (l : lcase) : bool :=
+  let c := l_case l in
+  let tbl := flat_map (fun p => chain7 (snd p)) (c_idkeys c) in
+  list_eqb nn_eqb tbl (l_chain l)
+  && check {| c_ids := c_ids c; c_idkeys := c_idkeys c; c_H := tbl; c_au64 := c_au64 c; c_addr := c_addr c;
+              c_contracts := c_contracts c; c_accts := c_accts c; c_addrs := c_addrs c; c_heights := c_heights c;
+              c_pre := c_pre c; c_blocks := c_blocks c |}.
+
+Definition CSL c ch : lcase := {| l_case := c; l_chain := ch |}.
+
+Example enc_dec_example : dec (enc [0; 7; 255]%N) = [0; 7; 255]%N.
+Proof. vm_compute. reflexivity. Qed.
